@@ -316,7 +316,8 @@ func (e *Engine) EstablishSummaries(workers int) []*Scenario {
 		scns = append(scns, &Scenario{Harness: sp.harness, Params: []int{255}, Label: "summary:" + sp.real, NoSummaries: true})
 	}
 	lem := []*Scenario{{Harness: "hFpLemma32", Label: "lemma:float32 compare encoding", NoSummaries: true}, {Harness: "hFpLemma64", Label: "lemma:float64 compare encoding", NoSummaries: true},
-		{Harness: "hBigEndianLemma", Label: "lemma:encoding/binary.BigEndian summaries", NoSummaries: true}}
+		{Harness: "hBigEndianLemma", Label: "lemma:encoding/binary.BigEndian summaries", NoSummaries: true},
+		{Harness: "hFpWidenLemma", Label: "lemma:float32->float64 widening", NoSummaries: true}}
 	scns = append(scns, lem...)
 	ex := NewExplorer(e, workers)
 	ex.sampleMax = 0
